@@ -19,9 +19,10 @@ for S in $SEEDS; do
   [ -f $D/patch.diff ] || { echo "$S: no patch"; continue; }
   P=$(python3 -c "import json;print(json.load(open('$D/meta.json'))['breaks_property'])")
   PROPS=${SEED_PROPS:-$P}
-  git -C $WT checkout -q -- . ; git -C $WT clean -fdq -- src >/dev/null 2>&1
+  git -C $WT reset -q --hard HEAD; git -C $WT clean -fdq -- src >/dev/null 2>&1
   if ! git -C $WT apply $D/patch.diff 2>/dev/null; then
-    if ! git -C $WT apply --3way $D/patch.diff >/dev/null 2>&1; then echo "$S $P: PATCH-DOES-NOT-APPLY" | tee -a $SM/results.txt; git -C $WT checkout -q -- .; continue; fi
+    if ! git -C $WT apply --3way $D/patch.diff >/dev/null 2>&1 || [ -n "$(git -C $WT diff --name-only --diff-filter=U)" ]; then echo "$S $P: PATCH-DOES-NOT-APPLY" | tee -a $SM/results.txt; git -C $WT reset -q --hard HEAD; continue; fi
+    git -C $WT reset -q >/dev/null 2>&1
   fi
   for Q in $PROPS; do
     if ! python3 -c "import sys;sys.path.insert(0,'$V/bin');from checks import CHECKS;sys.exit(0 if '$Q' in CHECKS else 1)"; then echo "$S $Q: NO-CHECK-YET" | tee -a $SM/results.txt; continue; fi
@@ -37,5 +38,5 @@ for S in $SEEDS; do
       *) echo "$S $Q $TIER: BROKEN rc=$rc ($((t1-t0))s) $(grep -m1 'CHECK-BROKEN\|BUILD FAILED' $SM/$S.$Q.log | cut -c1-200)" | tee -a $SM/results.txt;;
     esac
   done
-  git -C $WT checkout -q -- .
+  git -C $WT reset -q --hard HEAD
 done
